@@ -992,7 +992,8 @@ class Executor(Exec):
         for p in st.pc:
             if not z3.is_quantifier(p):
                 s.add(p)
-        return s.check() != z3.unsat
+        from .verify import guarded_check
+        return guarded_check(s, 300) != z3.unsat
 
     def s_AnnAssign(self, s, st):
         if s.value is None:
